@@ -85,24 +85,30 @@ func (e *Engine) sortGeneric(n int, less func(i, j int) bool, swap func(i, j int
 
 func init() {
 	intrinsics["regexp.Compile"] = func(e *Engine, a []Value) Value {
-		re, err := regexp.Compile(concStr(a[0]))
+		pat, _ := e.concStrFork(a[0], "")
+		re, err := regexp.Compile(pat)
 		if err != nil {
 			return Tuple{nativeRegexp{}, e.mkError(err.Error())}
 		}
 		return Tuple{nativeRegexp{re}, Iface{}}
 	}
 	intrinsics["(*regexp.Regexp).MatchString"] = func(e *Engine, a []Value) Value {
-		return Bool{V: a[0].(nativeRegexp).re.MatchString(concStr(a[1]))}
+		str, _ := e.concStrFork(a[1], "")
+		return Bool{V: a[0].(nativeRegexp).re.MatchString(str)}
 	}
 	intrinsics["(*regexp.Regexp).Split"] = func(e *Engine, a []Value) Value {
-		parts := a[0].(nativeRegexp).re.Split(concStr(a[1]), int(concI(e, a[2])))
+		subj, _ := e.concStrFork(a[1], "")
+		parts := a[0].(nativeRegexp).re.Split(subj, int(concI(e, a[2])))
 		var ps []Str
 		for _, p := range parts {
 			ps = append(ps, Str{S: p})
 		}
 		return strSliceVal(ps)
 	}
-	intrinsics["regexp.QuoteMeta"] = func(e *Engine, a []Value) Value { return Str{S: regexp.QuoteMeta(concStr(a[0]))} }
+	intrinsics["regexp.QuoteMeta"] = func(e *Engine, a []Value) Value {
+		str, _ := e.concStrFork(a[0], "")
+		return Str{S: regexp.QuoteMeta(str)}
+	}
 	intrinsics["encoding/json.Marshal"] = func(e *Engine, a []Value) Value {
 		n, ok := e.nativeOf(a[0])
 		if !ok {
@@ -244,5 +250,11 @@ func init() {
 	}
 	intrinsics["(*encoding/gob.Decoder).Decode"] = func(e *Engine, a []Value) Value {
 		return e.mkError("gob: stub: decoding is outside the symbolic model")
+	}
+}
+
+func init() {
+	intrinsics["reflect.SliceOf"] = func(e *Engine, a []Value) Value {
+		return rtIface(types.NewSlice(a[0].(Iface).V.(RT).T))
 	}
 }
